@@ -32,10 +32,10 @@ type Built struct {
 var L5 = []string{"C", "T", "S", "SS", "M"}
 
 // LF is the column-major layout family of C16.
-var LF = []string{"F", "Fc", "FS", "FT", "FM"}
+var LF = []string{"F", "Fc", "FS", "FT", "FM", "FR"}
 
 // LAll lists every layout the atlas can build.
-var LAll = []string{"C", "T", "S", "SS", "M", "ST", "TS", "Cl", "F", "Fc", "FS", "FT", "FM"}
+var LAll = []string{"C", "T", "S", "SS", "M", "ST", "TS", "Cl", "R", "F", "Fc", "FS", "FT", "FM", "FR"}
 
 func rev(s []int) []int {
 	o := make([]int, len(s))
@@ -196,6 +196,23 @@ func build(d ref.DT, shape []int, vals []interface{}, layout string) (*Built, er
 		rs, ms, ts := interior(shape)
 		b.RootT, b.Root = newRoot(d, rs, fort, false)
 		b.T = mustView(b.RootT.Slice(ts...))
+		b.View, _, _ = rootV(rs).Slice(ms)
+	case "R": // partial slice list: only the leading axis is sliced (rows 1..n of a root with n+2 rows), fewer slices than axes
+		if err := needRank(2); err != nil {
+			return nil, err
+		}
+		if shape[0] < 2 {
+			return nil, ErrNA
+		}
+		rs := ref.CopyInts(shape)
+		rs[0] += 2
+		b.RootT, b.Root = newRoot(d, rs, fort, false)
+		b.T = mustView(b.RootT.Slice(tensor.S(1, shape[0]+1)))
+		ms := make([]ref.Sl, r)
+		ms[0] = ref.Sl{Start: 1, End: shape[0] + 1, Step: 1}
+		for i := 1; i < r; i++ {
+			ms[i] = ref.Sl{Nil: true}
+		}
 		b.View, _, _ = rootV(rs).Slice(ms)
 	case "SS":
 		if err := needRank(1); err != nil {
@@ -539,6 +556,26 @@ func MetaInvariant(t *tensor.Dense) string {
 func OrderInvariant(t *tensor.Dense) string {
 	shape := t.Shape()
 	m := tensor.VerifMetaOf(t)
+	// a tensor the library will process as a plain array (RequiresIterator() == false) must be one: its storage window
+	// holds exactly its elements, and its strides are the canonical strides of its order flag
+	// (not judged for a non-view that is merely still flagged transposed with nothing pending - bookkeeping left by
+	// Reshape after T or by UT of a SafeT copy - which no stated property reads through a raw kernel)
+	if size := ref.Prod(shape); size > 1 && m.ElSize > 0 && !t.RequiresIterator() && !(m.O.IsTransposed() && m.ViewOf == 0) {
+		if win := m.RawLen / m.ElSize; win != size {
+			return fmt.Sprintf("RequiresIterator() is false but the storage window holds %d elements for %d logical ones (shape %v strides %v)", win, size, shape, m.Strides)
+		}
+		if len(m.Strides) == len(shape) {
+			want := tensor.Shape(shape).CalcStrides()
+			if m.O.IsColMajor() {
+				want = tensor.Shape(shape).CalcStridesColMajor()
+			}
+			for i, n := range shape {
+				if n != 1 && m.Strides[i] != want[i] {
+					return fmt.Sprintf("RequiresIterator() is false but strides %v are not the canonical strides %v of shape %v in its data order", m.Strides, want, shape)
+				}
+			}
+		}
+	}
 	// judged only when no transpose is pending: a lazily transposed tensor legitimately carries permuted strides
 	// under its original order flag
 	// ... and only for tensors that own their storage and are flagged contiguous (views go through iterators)
